@@ -324,7 +324,11 @@ def plot(input_fits, output_dir=None, select_format=("N", 1), plot_max=None,
             if flux.ndim > 1:
                 for j in range(flux.shape[1]):
                     lines.append(np.column_stack([_to_value(s.wav), _to_value(flux)[:, j]]))
-                    colors.append(color[color_type][j])
+                    if sed_type == 'largest':
+                        # single curve, and 'black'/'gray' are single colors
+                        colors.append(color[color_type])
+                    else:
+                        colors.append(color[color_type][j])
             else:
                 lines.append(np.column_stack([_to_value(s.wav), _to_value(flux)]))
                 colors.append(color[color_type])
